@@ -12,7 +12,8 @@ META = {
                    "false edge of a case-insensitive comparison (str::eq_ignore_ascii_case) of Authority::host() of the request host with Authority::host() of the parsed server "
                    "name - ports are ignored on both sides; (C20.2) host selection: for HTTP/2 the URI authority or else the Host header, otherwise the Host header; "
                    "(C20.3) TlsConnectionInfo::validated() is called exactly on the equal edge, MissingSNI is returned on the no-server-name edge; (C20.4) call(): the inner "
-                   "service is invoked only when handle() returned None and receives the same request; (C20.5) no undischarged panic site in the two functions.",
+                   "service is invoked only when handle() returned None and receives the same request; (C20.5) no undischarged panic site in the two functions."
+                   " As built now: C20.1 is the decision table of sni::handle (snitable.py: HTTP version x URI authority x Host header x TLS information, 54 scenarios -> forwarded / forwarded and marked / rejected with which error), C20.4 a two-row table of ValidateSNIService::call, C20.6 the TLS-information state machine (Empty only from empty(), one write guard held across the wait).",
     "trusted_base": ["rustc type/borrow checker", "http::uri::Authority::host() strips the port", "str::eq_ignore_ascii_case"],
     "assumptions": [],
     "undecided": "the full input space of host spellings (IDNA, trailing dots) - only ASCII case folding is claimed",
